@@ -135,6 +135,9 @@ var watchdogTimeout = 120 * time.Second
 var watchdogAfterFirst = 10 * time.Second
 var watchdogFired bool
 
+// WatchdogFired reports whether an execution of this process was abandoned.
+func WatchdogFired() bool { return watchdogFired }
+
 // Active reports whether a controlled execution is in progress.
 func Active() bool { return cur != nil }
 
